@@ -956,6 +956,9 @@ func binop(op string, l, r Value) (Value, signal) {
 			}
 			return a % b, signal{}
 		case "**":
+			if a == 0 && b < 0 {
+				return nil, fatal("ValueError", divZeroMsg)
+			}
 			return IntPow(a, b), signal{}
 		case "<<":
 			if b < 0 {
